@@ -575,13 +575,54 @@ func treeLabels(tree []Entry) []string {
 
 var labelPriority = []string{"relative-name", "through-final-symlink", "rename-nonempty-dir", "link-over-tracked", "dangling-link-parent", "rename-dir-onto-alias", "removeall-above-location", "link-topology", "escaping-link", "unclean-link-target", "rename-onto-dir", "new-link-topology"}
 
-func knownClass(labels map[string]bool) string {
+// knownClass attributes an oracle failure under property prop to a recorded finding class: the first
+// label (in priority order) whose finding is listed for that property in KNOWN_FINDINGS.json; when
+// several labels apply, one that cannot explain a failure of this property is not chosen.  If none
+// of the labels is listed for the property, the first label is returned (the check then reports the
+// class as unlisted, i.e. as a violation).
+func knownClass(prop string, labels map[string]bool) string {
+	first := ""
 	for _, l := range labelPriority {
 		if labels[l] {
-			return "K-" + l
+			if first == "" {
+				first = "K-" + l
+			}
+			if findingListsProp("K-"+l, prop) {
+				return "K-" + l
+			}
 		}
 	}
-	return ""
+	return first
+}
+
+var findingProps map[string]map[string]bool
+
+func findingListsProp(id, prop string) bool {
+	if findingProps == nil {
+		findingProps = map[string]map[string]bool{}
+		if b, err := os.ReadFile(verifRoot + "/KNOWN_FINDINGS.json"); err == nil {
+			var kf struct {
+				Findings []struct {
+					ID         string   `json:"id"`
+					Status     string   `json:"status"`
+					Properties []string `json:"properties"`
+				} `json:"findings"`
+			}
+			if json.Unmarshal(b, &kf) == nil {
+				for _, f := range kf.Findings {
+					if f.Status != "open" {
+						continue
+					}
+					m := map[string]bool{}
+					for _, p := range f.Properties {
+						m[p] = true
+					}
+					findingProps[f.ID] = m
+				}
+			}
+		}
+	}
+	return findingProps[id][prop]
 }
 
 // ---- case execution -----------------------------------------------------------------------
@@ -656,7 +697,7 @@ func runHistCase(c *HistCase, prop string) (*caseOut, error) {
 			}
 		}
 		v := Violation{Property: p, What: what, Case: c}
-		if k := knownClass(out.labels); k != "" {
+		if k := knownClass(p, out.labels); k != "" {
 			v.Known = k
 		}
 		out.viol = append(out.viol, v)
@@ -708,7 +749,7 @@ func runHistCase(c *HistCase, prop string) (*caseOut, error) {
 		for k := range stepLabels {
 			m[k] = true
 		}
-		if k := knownClass(m); k != "" {
+		if k := knownClass(p, m); k != "" {
 			v.Known = k
 		}
 		out.viol = append(out.viol, v)
@@ -1099,7 +1140,7 @@ func mergeCase(res *Result, b *Batch, out *caseOut, prop string) {
 	if len(out.labels) == 0 {
 		res.count("cases.admissible")
 	} else {
-		res.count("cases.outside:" + knownClass(out.labels))
+		res.count("cases.outside:" + knownClass(prop, out.labels))
 	}
 	for _, v := range out.viol {
 		res.violate(v)
